@@ -191,7 +191,9 @@ func (c *Confirm) Get(w http.ResponseWriter, r *http.Request) error {
 
 	rawToken, err := base64.URLEncoding.DecodeString(values.GetToken())
 	if err != nil {
-		logger.Infof("error decoding token in Confirm.Get, this typically means a bad token: %s %+v", values.GetToken(), err)
+		// never log the submitted value: a mistyped or truncated link still
+		// contains (most of) the genuine token
+		logger.Infof("error decoding token in Confirm.Get, this typically means a bad token: %+v", err)
 		return c.invalidToken(w, r)
 	}
 
